@@ -576,6 +576,9 @@ class Interp:
                     x, y = a["n"], b["n"]
                     n = {"|": x | y, "&": x & y, "^": x ^ y, "<<": x << y, ">>": x >> y, "/": x // y, "%": x % y}[e["op"]]
                     out.append((s2, {"v": "int", "n": n, "src": src(e)}))
+                elif e["op"] == "+" and is_str(a) and (is_str(b) or b.get("v") == "hole"):
+                    # String + &str: the texts one after the other
+                    out.append((s2, S(list(a["parts"]) + (list(b["parts"]) if is_str(b) else [("h", b)]))))
                 elif a.get("v") == "flags" and b.get("v") == "flags" and a["ty"] == b["ty"] and e["op"] in ("|", "&", "^", "-"):
                     n = {"|": a["bits"] | b["bits"], "&": a["bits"] & b["bits"], "^": a["bits"] ^ b["bits"], "-": a["bits"] & ~b["bits"]}[e["op"]]
                     out.append((s2, {"v": "flags", "ty": a["ty"], "bits": n, "src": src(e)}))
@@ -1435,6 +1438,9 @@ class Interp:
                         continue
                     d = self._delta(before, after)
                     if d is None:
+                        import os as _os
+                        if _os.environ.get("VERIF_DEBUG"):
+                            print("DEBUG delta", name, "before", before, "\nafter", after)
                         problems.append("`%s` is changed by the loop body in a way that is not an append" % name)
                     else:
                         deltas.setdefault(name, []).append((s2.conds, d))
@@ -1502,6 +1508,48 @@ class Interp:
                     if _os.environ.get("VERIF_DEBUG"):
                         print("DEBUG carried", name, "loose", loose, "\nfirsts", [(k_, canon(v_) if v_ else None) for k_, v_ in firsts.items()], "\nnexts", [(k_, canon(v_) if v_ else None) for k_, v_ in nexts.items()])
                     problems.append("`%s` is tested for emptiness inside the loop in a way that is not the separator idiom" % name)
+        # an accumulator of type Option<String> that is None when the loop starts (`fold(None, |acc, x| match acc { None =>
+        # Some(x), Some(j) => Some(j + SEP + &x) })`): the first element is seen with None, every later one with Some(text so
+        # far).  The body is evaluated a second time with Some(carried); where the two runs differ by a constant in front of the
+        # piece, that constant is the separator by position (base case and step of the induction over the elements).
+        optacc = {name for name, alts in deltas.items() if name != "__buf" and isinstance(snap_env.get(name), dict) and snap_env[name].get("v") == "none" and any(d is not None for _, d in alts)}
+        if optacc and not carried and not problems:
+            start2 = {name: {"v": "some", "x": S([("h", H("carried", name, name=name, empty_before=False))])} for name in optacc}
+            deltas2, problems2, err2 = analyse(run_body(start2), start2)
+            problems += [p_ for p_ in problems2 if p_ not in problems]
+            for name in optacc:
+                firsts, nexts = dict(deltas[name]), dict(deltas2.get(name, []))
+                okp, sep_ = set(firsts) == set(nexts) and len(firsts) == len(deltas[name]), None
+                for key_ in firsts if okp else []:
+                    f_, n_ = firsts[key_], nexts[key_]
+                    if f_ is None or n_ is None:
+                        okp = False  # an element that leaves the accumulator as it is: "first" is then not a matter of position
+                        break
+                    fp, np_ = merge_consts(flat_parts(f_["parts"])), merge_consts(flat_parts(n_["parts"]))
+                    if np_ == fp:
+                        s1_ = ""
+                    elif fp and np_ and fp[0][0] == "c" and np_[0][0] == "c" and np_[0][1].endswith(fp[0][1]) and np_[1:] == fp[1:]:
+                        s1_ = np_[0][1][: len(np_[0][1]) - len(fp[0][1])]
+                    elif np_ and np_[0][0] == "c" and np_[1:] == fp and (not fp or fp[0][0] != "c"):
+                        s1_ = np_[0][1]
+                    else:
+                        s1_ = None
+                    if s1_ is None or (sep_ is not None and s1_ != sep_):
+                        okp = False
+                        break
+                    sep_ = s1_
+                if okp and sep_ is not None:
+                    seps[name] = sep_
+                    exact_sep.add(name)
+                else:
+                    problems.append("`%s` is an Option accumulator whose first and later steps do not differ by a separator" % name)
+            for o_ in deltas:
+                if o_ not in optacc and [(c_, canon(d_) if isinstance(d_, dict) and d_.get("v") else repr(d_)) for c_, d_ in deltas[o_]] != [(c_, canon(d_) if isinstance(d_, dict) and d_.get("v") else repr(d_)) for c_, d_ in deltas2.get(o_, [])]:
+                    problems.append("`%s` accumulates differently once the Option accumulator is set" % o_)
+            if sorted(map(repr, err_paths)) != sorted(map(repr, err2)):
+                problems.append("the error exits of the loop body depend on the Option accumulator")
+        elif optacc:
+            problems.append("an Option accumulator next to other carried accumulators")
         out_state = st
         for pr in problems:
             if pr not in out_state.unknown:
@@ -1527,7 +1575,9 @@ class Interp:
                 continue
             before = snap_env[name]
             kinds = {self._delta_kind(d) for _, d in alts if d is not None}
-            if kinds == {"str"} and is_str(before):
+            if kinds == {"str"} and name in optacc and name in exact_sep:
+                out_state.env[name] = {"v": "optjoin", "x": S([("join", mapped, seps[name])]), "src": src(e["iter"])}
+            elif kinds == {"str"} and is_str(before):
                 sep_ = seps.get(name, "")
                 if sep_ and name not in exact_sep:
                     # join semantics need every appended piece to be non-empty (an empty first piece would lose its separator)
@@ -1632,6 +1682,13 @@ class Interp:
             bp, ap = before["parts"], after["parts"]
             if ap[: len(bp)] == bp:
                 return S(ap[len(bp):])
+            return None
+        if isinstance(before, dict) and isinstance(after, dict) and after.get("v") == "some" and is_str(after.get("x")):
+            # an Option<String> accumulator: None before the first element, Some(text so far) afterwards
+            if before.get("v") == "none":
+                return S(list(after["x"]["parts"]))
+            if before.get("v") == "some" and is_str(before.get("x")):
+                return self._delta(before["x"], after["x"])
             return None
         if isinstance(before, dict) and isinstance(after, dict) and before.get("v") == "list" and after.get("v") == "list" and not before.get("field"):
             bi, ai = before["items"], after["items"]
@@ -2207,6 +2264,14 @@ class Interp:
             return [(st, dict(rv, adaptors=rv.get("adaptors", []) + [m]))]
         if k == "mapped" and m in ("first", "last", "next"):
             return [(st, {"v": "some", "x": H("elem-of-mapped", src(e), mapped=rv, which=m)})]
+        if k == "mapped" and m == "get" and len(argv) == 1 and isinstance(argv[0], dict) and argv[0].get("v") == "int" and argv[0].get("n") == 0:
+            return [(st, {"v": "some", "x": H("elem-of-mapped", src(e), mapped=rv, which="first")})]
+        if k == "optjoin":
+            # None for an empty collection, Some(join) otherwise: the join of nothing is the empty text
+            if m == "unwrap_or_default" and not argv:
+                return [(st, rv["x"])]
+            if m == "unwrap_or" and len(argv) == 1 and is_str(argv[0]) and not argv[0]["parts"]:
+                return [(st, rv["x"])]
         if m == "len" and not argv and (k in ("mapped", "self") or (k == "hole" and rv.get("kind") in ("payload", "param", "elem", "some-of"))):
             return [(st, H("len", src(e), of=rv))]
         if m == "join" and len(argv) == 1 and is_str(argv[0]):
@@ -2459,6 +2524,10 @@ class Interp:
                 return [(st, {"v": "bool", "b": True, "src": src(e)})]
             if m in ("is_none",):
                 return [(st, {"v": "bool", "b": False, "src": src(e)})]
+        if k == "optjoin" and m == "unwrap_or_else" and len(argv) == 1:
+            alts_ = apply(argv[0], {"v": "unit"}, st)
+            if alts_ and all(is_str(v_) and not v_["parts"] for _, v_ in alts_):
+                return [(s2, rv["x"]) for s2, _ in alts_]
         if k == "none":
             if m in ("map", "and_then"):
                 return [(st, rv)]
